@@ -95,7 +95,8 @@ inductive ScalarParam (sig : List Row) (op : Str) : Str × PVal → Prop
   | strs (n : Str) (l : List (Option Str)) : StableAttr n → StableItems l → ScalarParam sig op (n, .strs l)
   | classname (n c : Str) : StableAttr n → StableAttr c → ScalarParam sig op (n, .obj (.path (.cls c none none)))
 
-theorem ScalarParam.rt {sig : List Row} {op : Str} {p : Str × PVal} (C : DecCodec) (emb : Str → R Atom)
+/-- every scalar parameter kind round-trips (`ParamRT`), no hypothesis about objects -/
+theorem C04_scalar_param_roundtrip {sig : List Row} {op : Str} {p : Str × PVal} (C : DecCodec) (emb : Str → R Atom)
     (h : ScalarParam sig op p) : ParamRT C emb (kindOf sig op p.1) p p := by
   cases h with
   | bool n b hn hk => rw [hk]; exact ParamRT.bool C emb b hn
@@ -103,11 +104,6 @@ theorem ScalarParam.rt {sig : List Row} {op : Str} {p : Str × PVal} (C : DecCod
   | str n s hn hs hc hk => exact ParamRT.str C emb _ hn hs hc hk
   | strs n l hn hl => exact ParamRT.strs C emb _ hn hl
   | classname n c hn hc => exact ParamRT.classname C emb _ hn hc
-
-theorem zip_refl {α : Type} {R : α → α → Prop} (l : List α) (h : ∀ a ∈ l, R a a) : Zip R l l := by
-  induction l with
-  | nil => exact .nil
-  | cons a rest ih => exact .cons (h a (by simp)) (ih (fun b hb => h b (by simp [hb])))
 
 /-- **scalar parameters, no hypothesis.**  Booleans (whatever the parameter is called: the four names
     `parse_iparamvalue` coerces and the two it does not), integers, strings, string lists with NULL
@@ -117,7 +113,7 @@ theorem C04_server_sees_scalars (C : DecCodec) (depth : Nat) (sig : List Row) (o
     ∃ t, wireTree (requestXml C.toCodec op ns ps) = some t ∧
       serverSees C depth sig t = .ok ("1001".toList, { op := op, ns := ns, params := dropNone ps }) :=
   serverSees_request C depth sig op ns ps (dropNone ps) hop hns
-    (zip_refl _ (fun p hp => (h p hp).rt C (embAt C depth)))
+    (Zip.refl _ (fun p hp => C04_scalar_param_roundtrip C (embAt C depth) (h p hp)))
 
 /-- booleans survive whether or not `parse_iparamvalue` special-cases the parameter name -/
 theorem C04_boolean_param_any_name (n : Str) (b : Bool) :
@@ -340,5 +336,41 @@ example (C : DecCodec) : ∃ t, wireTree (requestXml C.toCodec "EnumerateInstanc
     · exact .bool _ _ (by constructor <;> decide) (by decide)
     · exact .strs _ _ (by constructor <;> decide) (by
         intro s hs; simp at hs; subst hs; constructor <;> decide)
+
+/-- the EnumerateClassNames row of the extracted table (used by the examples below) -/
+def ecnRow : Row :=
+  { op := "EnumerateClassNames", pyName := "EnumerateClassNames", nsRule := .nsOrClass "ClassName",
+    params := [⟨"ClassName", .cls, false⟩, ⟨"DeepInheritance", .bool, false⟩],
+    hasReturn := true, hasOut := false, post := .classNames, clears := [] }
+
+example : ecnRow ∈ rows := by decide
+
+def ecnCall : Call := { args := [("ClassName".toList, .str "C".toList), ("DeepInheritance".toList, .bool true)] }
+
+example : prepare "root/a".toList ecnRow ecnCall =
+    .ok ("root/a".toList, [("ClassName".toList, some (.obj (.path (.cls "C".toList none none)))),
+                            ("DeepInheritance".toList, some (.bool true))]) := by
+  rfl
+
+/-- non-vacuity of `C04_commutes_classnames`: EnumerateClassNames(ClassName='C', DeepInheritance=True) on a
+    connection with default namespace root/a, against any server that answers with two class paths -/
+example (C : DecCodec) (S : Seen → Result)
+    (hS : S { op := "EnumerateClassNames".toList, ns := "root/a".toList,
+              params := [("ClassName".toList, .obj (.path (.cls "C".toList none none))),
+                         ("DeepInheritance".toList, .bool true)] } =
+          .ok [.iret (classPaths [("C_Sub".toList, some "h".toList, some "root/a".toList), ("D".toList, none, none)])]) :
+    exchange C 1 rows "root/a".toList "srv".toList S ecnRow ecnCall = .ok (.names ["C_Sub".toList, "D".toList]) := by
+  have h := C04_commutes_classnames C 1 rows "root/a".toList "srv".toList S ecnRow ecnCall "root/a".toList
+    [("ClassName".toList, some (.obj (.path (.cls "C".toList none none)))), ("DeepInheritance".toList, some (.bool true))]
+    [("ClassName".toList, .obj (.path (.cls "C".toList none none))), ("DeepInheritance".toList, .bool true)]
+    [("C_Sub".toList, some "h".toList, some "root/a".toList), ("D".toList, none, none)]
+    rfl (by constructor <;> decide) (by constructor <;> decide)
+    (.cons (ParamRT.classname C _ _ (by constructor <;> decide) (by constructor <;> decide))
+      (.cons (by
+        have : kindOf rows ecnRow.op.toList "DeepInheritance".toList = some .bool := by decide
+        rw [this]; exact ParamRT.bool C _ true (by constructor <;> decide)) .nil))
+    rfl rfl hS
+    (by intro x hx; simp at hx; rcases hx with rfl | rfl <;> (constructor <;> decide))
+  simpa using h
 
 end C04
